@@ -71,6 +71,8 @@ def detect(d, props):
     results = {}
     try:
         rc, out = sh(["git", "apply", os.path.join(d, "patch.diff")], cwd=wt)
+        if rc != 0:  # context drifted because of a later fix: commit nearby: retry with less context
+            rc, out = sh(["git", "apply", "-C1", os.path.join(d, "patch.diff")], cwd=wt)
         if rc != 0:
             raise SystemExit("patch does not apply: " + out)
         for prop in props:
